@@ -10,9 +10,11 @@ from .pdb import AnalysisBroken
 MANY = 2
 
 
-def fork(prop, **facts):
+def fork(prop, _facts=None, **facts):
     d = {"__facts__": True}
     d.update(facts)
+    if _facts:
+        d.update(_facts)     # keys may be memory cells ("M", address expression)
     return (prop, d)
 
 
@@ -66,7 +68,7 @@ class CountHooks(flow.Hooks):
             # explicit forks: [(symbols, facts), ...]
             out = []
             for syms, facts in r:
-                out.append(fork(self._bump(prop, syms), **facts))
+                out.append(fork(self._bump(prop, syms), facts))
             return out
         return self._bump(prop, r)
 
